@@ -50,8 +50,11 @@ func encodeTraced(img image.Image, o *webp.EncoderOptions, seed int64, prof map[
 		err error
 	}
 	ch := make(chan res, 1)
+	done := make(chan struct{})
+	cpu0 := procCPU(os.Getpid())
 	verifhook.Start(seed, prof)
 	go func() {
+		defer close(done)
 		var buf bytes.Buffer
 		e := webp.Encode(&buf, img, o)
 		ch <- res{buf.Bytes(), e}
@@ -61,6 +64,12 @@ func encodeTraced(img image.Image, o *webp.EncoderOptions, seed int64, prof map[
 		ev = verifhook.Stop()
 		return r.b, ev, false, r.err
 	case <-time.After(limit):
+		// not back within the wall-clock limit: blocked (no CPU used) or spinning -> hung; merely slow -> wait
+		if hangVerdict(done, cpu0, limit) == "finished" {
+			r := <-ch
+			ev = verifhook.Stop()
+			return r.b, ev, false, r.err
+		}
 		ev = verifhook.Stop()
 		return nil, ev, true, nil
 	}
@@ -263,12 +272,15 @@ func runConcurrentPrograms(seed int64, rounds, k, seqLen int, report func(key, m
 			}(progs[g])
 		}
 		done := make(chan struct{})
+		cpu0 := procCPU(os.Getpid())
 		go func() { wg.Wait(); close(done) }()
 		select {
 		case <-done:
 		case <-time.After(120 * time.Second):
-			report("deadlock|concurrent-programs", "concurrent public API calls did not return within 120 s")
-			return
+			if v := hangVerdict(done, cpu0, 120*time.Second); v != "finished" {
+				report("deadlock|concurrent-programs", "concurrent public API calls did not return within 120 s ("+v+")")
+				return
+			}
 		}
 		names := []string{}
 		for _, p := range progs {
